@@ -1,1 +1,10 @@
 import Martian.Props.C15
+open Martian.Props.C15
+#print axioms snapshot_is_wire_partial
+#print axioms snapshot_lacks_final_crlf
+#print axioms snapshot_is_wire_counterexample
+#print axioms reader_sections_partition
+#print axioms decode_reader_returns_body
+#print axioms logger_identity
+#print axioms skip_logging_records_nothing
+#print axioms unskipped_is_recorded
